@@ -179,6 +179,13 @@ def run(chk, P):
     chk.rule('R17.5', 'the channel count (frame size, interleave stride) is taken from the link being decoded: no bare vf->vi '
              '(link 0) is dereferenced in the read path (shared implementation with C09 R09.4)')
     c09.r09_4(Proxy(chk, 'R17.5'), P)
+    # R17.6: the link's channel count / info pointer is not carried across the packet fetch that may switch links
+    import k3
+    from rules import c07
+    E = getattr(P, '_effects', None) or k3.Effects(P)
+    P._effects = E
+    c07.r07_6(chk, P, E, rule='R17.6', only={'ov_read_filter', 'ov_read', 'ov_read_float'})
+    chk.floor('R17.6', 1)
     chk.trusted += ['clang 14 front end', 'K4 interval analysis partitioned by the sign flag', 'vorbis_ftoi returns an int (any value)']
     return ('Value-range analysis of ov_read_filter, partitioned by the signedness argument, proves that every stored sample '
             'is clipped to exactly the range of its word on all five packing paths, that parameter checks and the frame clamp '
